@@ -2035,6 +2035,10 @@ accumulator means six bytes will be moved.
 
 */
 func (cpu *CPU) op_mvn() {
+	if cpu.M == 1 {
+		// the byte count is the full 16-bit C accumulator whatever the M flag says
+		cpu.RA = uint16(cpu.RAh)<<8 | uint16(cpu.RAl)
+	}
 	dst := cpu.Bus.nRead(cpu.RK, cpu.StepInfo.Addr)
 	src := cpu.Bus.nRead(cpu.RK, cpu.StepInfo.Addr+1)
 
@@ -2059,6 +2063,10 @@ func (cpu *CPU) op_mvn() {
 
 // MVP - MoVe memory Positive
 func (cpu *CPU) op_mvp() {
+	if cpu.M == 1 {
+		// the byte count is the full 16-bit C accumulator whatever the M flag says
+		cpu.RA = uint16(cpu.RAh)<<8 | uint16(cpu.RAl)
+	}
 	dst := cpu.Bus.nRead(cpu.RK, cpu.StepInfo.Addr)
 	src := cpu.Bus.nRead(cpu.RK, cpu.StepInfo.Addr+1)
 
